@@ -74,7 +74,10 @@ def run(ctx, only=None):
         if macro in ('ascent', 'ascent_run'):
             muts += IF.serial_only(prog)
         for k, (kind, desc, text) in enumerate(muts):
-            for m in ([macro] if ctx.tier == 'quick' else [macro, MACROS[(n + 1 + k) % 4]]):
+            second = MACROS[(n + 1 + k) % 4]
+            if kind == 'par_attr_in_serial' and second in ('ascent_par', 'ascent_run_par'):
+                second = 'ascent_run' if macro == 'ascent' else 'ascent'      # ill-formed in the serial macros only
+            for m in ([macro] if ctx.tier == 'quick' or second == macro else [macro, second]):     # names must be unique: one file per name
                 nm = 'm%d_%d_%s' % (n, k, m)
                 progs.append((nm, m, text))
                 meta[nm] = {'expect': 'reject', 'kind': kind, 'desc': desc}
